@@ -136,6 +136,14 @@ def rule_forms(ctx: Ctx):
                   f"{c.name}: compiled form == unit-to-unit form == {kd.form}",
                   bad_detail=f"{c.name}: the two forms differ: d_mat = {km.form}   but   d = {kd.form}",
                   construct=f"{c.name}: d_mat vs d", key=f"sibling:{c.name}")
+        # a special case of compile_d_mat (`if alpha == 0: return cat`) is the compiled form under that condition: d() under the same condition
+        for s_, cond, fld, const, sform in getattr(km, "special", []):
+            import fractions as _fr
+            names = {repr(fld)}
+            at = A.subst(kd.form, lambda v, _n=names, _c=const: Rat.const(_fr.Fraction(str(_c))) if v in _n else None)
+            ctx.check(at == sform, "R-C04-1", cd, s_, f"{c.name}: under `{cond}` the compiled form {sform} is what d() computes there",
+                      bad_detail=f"{c.name}: when `{cond}`, compile_d_mat hands out {sform}   but   d = {at}: a weight of the combination never reaches the kernel "
+                                 f"the alignments are built with", construct=f"{c.name}: d_mat vs d when {cond}", key=f"sibling-special:{c.name}:{cond}")
         sp = spec_formula(M, c)
         if sp is not None:
             txt, want = sp
